@@ -167,3 +167,20 @@ def test_strings(limit=None):
 
 def truncations(s, step=1):
     return [s[:i] for i in range(0, len(s) + 1, step)]
+
+
+CONTEXTS = ["", "%m(", "%m(a=", "%let a=", "%let ", "%put ", "%eval(", "%sysevalf(", "%str(", "%nrstr(", "\"", "%macro m(", "%macro m;", "%if ", "%do ", "%do i=", "%scan(", "%substr(a,", "%sysfunc(", "%sysfunc(f(", "%local ", "%upcase(", "%cmpres(", "%verify(", "%goto ", "%m(\"", "%syscall ", "x=", "%lbl: "]
+CTX_ATOMS = ["a", " ", "%*c;", "=", ",", ")", "(", "&x", "&x.", "%n", "%n(", "/*c*/", "\n", ";", "'s'", "\"", "1", "+", "%then ", "%to ", "%", "&", "eq", "%str(", "%eval(", "%let ", "* c;", "\u044b", ".5", "0fx", ":"]
+
+
+def context_exhaustive(k, rng=None, limit=None):
+    """every context followed by every sequence of at most k atoms (sampled down to limit)"""
+    import itertools
+    out = []
+    for c in CONTEXTS:
+        for n in range(0, k + 1):
+            for combo in itertools.product(CTX_ATOMS, repeat=n):
+                out.append(c + "".join(combo))
+    if limit and len(out) > limit and rng is not None:
+        out = [out[rng.below(len(out))] for _ in range(limit)]
+    return out
